@@ -39,6 +39,28 @@ import (
 // rule itself derives what an edge decides: the true edge of A && B decides A and B, the false
 // edge of A || B decides !A and !B, ! swaps the edges. The same is done for the namespace test
 // (`ok && ns == fb.Namespaces[t]`: its true edge is the match branch; `ns != ... ` : the false edge).
+//
+// Second condition (rejecting give-up, added after seeded change C17-1): a successful lookup is
+// not enough when the branch then *rejects* what it found. A block may hold only a
+// references-only record for a point whose real record is in another block of the namespace
+// (an overlay merged before its base), a decoded value may be empty, and so on. Within the match
+// branch the rule therefore also computes
+//   - the variables data-dependent on the lookup (assigned from it, decoded from it by a method
+//     call that receives it, ranged over it, ... to a fixpoint);
+//   - record tests: conditions (if / for conditions, case comparisons of a switch whose tag is
+//     such a variable) with a leaf that mentions such a variable and is not itself a success test;
+//   - productions: statements that mention such a variable and write a variable declared outside
+//     the block loop (assignment, append, map store, method call on it / passing its address);
+//   - give-ups: an edge to the loop's done block or out of the loop, or a return that neither
+//     mentions lookup data nor is a constant different from the not-found return that follows
+//     the loop (`return true` against `return false` is a found-return, not a give-up).
+//
+// A give-up is a violation if it is control dependent on an edge of a record test (all paths
+// from that edge lead to this give-up, the other edge can go on to the next block, produce, or
+// leave differently) and some path match edge -> test -> that edge -> give-up has no production:
+// the found record was rejected, nothing of it was used, and the scan still stops. A give-up
+// that only depends on the success test ("first record found wins", e.g. the final break of
+// fillPathSegments) is accepted.
 func init() {
 	register(&Rule{
 		Name:  "BLOCKSCAN",
@@ -48,7 +70,9 @@ func init() {
 		// fillPathSegments, isGraphNode, FindRelationsByFeature, fillRelationsFrom{Point,Path,Area,Relation}
 		Floor: 14,
 		Doc: "in ingest/compact, a loop over feature blocks leaves the loop (return, break, jump) inside the namespace-match branch " +
-			"only behind the success edge of a lookup in that block, because several merged blocks may share a namespace",
+			"only behind the success edge of a lookup in that block, because several merged blocks may share a namespace; and a give-up " +
+			"(break, jump, return of the not-found value) is not control dependent on a test that rejects the found record (kind, zero/empty test) " +
+			"unless data of that record was used for the result on the way",
 		Run: runBlockscan,
 	})
 }
@@ -559,6 +583,19 @@ func runBlockscan(c *Ctx) []Obligation {
 					break
 				}
 			}
+			if ob.Status == OK {
+				var starts []*cfg.Block
+				for _, m := range matches {
+					starts = append(starts, m.start)
+				}
+				if w := s.rejectingGiveUp(g, u.body, starts, x, loop); w != nil {
+					ob.Status = Violation
+					ob.Detail = fmt.Sprintf("loop over blocks %s: %s; another block of the namespace may hold the real record (e.g. an overlay file merged before its base file), but the scan stops here", types.ExprString(loop.X), w[0])
+					ob.Path = w[1:]
+				} else {
+					ob.Detail += "; no give-up depends on a test that rejects the found record"
+				}
+			}
 			out = append(out, ob)
 		}
 	}
@@ -649,4 +686,483 @@ func (s *hScan) matchEdges(cond ast.Expr, x types.Object) (onTrue, onFalse bool,
 	onTrue = on(true)
 	onFalse = on(false)
 	return
+}
+
+// ---- rejecting give-ups --------------------------------------------------------------------------
+
+func hRootIdent(e ast.Expr) *ast.Ident {
+	for {
+		switch v := ast.Unparen(e).(type) {
+		case *ast.Ident:
+			return v
+		case *ast.SelectorExpr:
+			e = v.X
+		case *ast.IndexExpr:
+			e = v.X
+		case *ast.StarExpr:
+			e = v.X
+		case *ast.SliceExpr:
+			e = v.X
+		case *ast.UnaryExpr:
+			if v.Op == token.AND {
+				e = v.X
+				continue
+			}
+			return nil
+		default:
+			return nil
+		}
+	}
+}
+
+func hMentions(info *types.Info, n ast.Node, set map[types.Object]bool) bool {
+	found := false
+	ast.Inspect(n, func(x ast.Node) bool {
+		if found {
+			return false
+		}
+		if id, ok := x.(*ast.Ident); ok {
+			if obj := info.Uses[id]; obj != nil && set[obj] {
+				found = true
+			}
+		}
+		return true
+	})
+	return found
+}
+
+// derivedVars: variables of the function that are data-dependent on a lookup in block x.
+func (s *hScan) derivedVars(body ast.Node, x types.Object) map[types.Object]bool {
+	d := map[types.Object]bool{}
+	for obj, as := range s.assigns {
+		for _, a := range as {
+			if a.call != nil && s.lookupCall(a.call, x) {
+				d[obj] = true
+			}
+		}
+	}
+	mark := func(e ast.Expr) bool {
+		if id := hRootIdent(e); id != nil && id.Name != "_" {
+			if v, ok := s.info.ObjectOf(id).(*types.Var); ok && !v.IsField() && v != x && !d[v] {
+				d[v] = true
+				return true
+			}
+		}
+		return false
+	}
+	for changed, iter := true, 0; changed && iter < 10; iter++ {
+		changed = false
+		ast.Inspect(body, func(n ast.Node) bool {
+			switch v := n.(type) {
+			case *ast.AssignStmt:
+				dep := false
+				for _, r := range v.Rhs {
+					if hMentions(s.info, r, d) {
+						dep = true
+					}
+				}
+				if dep {
+					for _, l := range v.Lhs {
+						if mark(l) {
+							changed = true
+						}
+					}
+				}
+			case *ast.ValueSpec:
+				dep := false
+				for _, r := range v.Values {
+					if hMentions(s.info, r, d) {
+						dep = true
+					}
+				}
+				if dep {
+					for _, l := range v.Names {
+						if mark(l) {
+							changed = true
+						}
+					}
+				}
+			case *ast.RangeStmt:
+				if hMentions(s.info, v.X, d) {
+					for _, e := range []ast.Expr{v.Key, v.Value} {
+						if e != nil && mark(e) {
+							changed = true
+						}
+					}
+				}
+			case *ast.ExprStmt:
+				call, ok := v.X.(*ast.CallExpr)
+				if !ok {
+					return true
+				}
+				dep := false
+				for _, a := range call.Args {
+					if hMentions(s.info, a, d) {
+						dep = true
+					}
+				}
+				if !dep {
+					return true
+				}
+				// p.Decode(..., data): the receiver now holds lookup data; so does &v passed along
+				if sel, ok := ast.Unparen(call.Fun).(*ast.SelectorExpr); ok {
+					if _, isPkg := s.info.ObjectOf(hRootIdentOrNil(sel.X)).(*types.PkgName); !isPkg && mark(sel.X) {
+						changed = true
+					}
+				}
+				for _, a := range call.Args {
+					if u, ok := ast.Unparen(a).(*ast.UnaryExpr); ok && u.Op == token.AND && mark(u.X) {
+						changed = true
+					}
+				}
+			}
+			return true
+		})
+	}
+	return d
+}
+
+func hRootIdentOrNil(e ast.Expr) *ast.Ident {
+	if id := hRootIdent(e); id != nil {
+		return id
+	}
+	return &ast.Ident{Name: "_"}
+}
+
+// hLeaves flattens &&, || and !.
+func hLeaves(e ast.Expr) []ast.Expr {
+	e = ast.Unparen(e)
+	switch v := e.(type) {
+	case *ast.UnaryExpr:
+		if v.Op == token.NOT {
+			return hLeaves(v.X)
+		}
+	case *ast.BinaryExpr:
+		if v.Op == token.LAND || v.Op == token.LOR {
+			return append(hLeaves(v.X), hLeaves(v.Y)...)
+		}
+	}
+	return []ast.Expr{e}
+}
+
+type hExit struct {
+	from *cfg.Block
+	to   *cfg.Block      // nil for a return
+	ret  *ast.ReturnStmt // nil for an edge
+	kind string          // "continue", "break", "jump", "found-return", "give-up-return"
+}
+
+func (s *hScan) rejectingGiveUp(g *cfg.CFG, body ast.Node, starts []*cfg.Block, x types.Object, loop *ast.RangeStmt) []string {
+	derived := s.derivedVars(body, x)
+	outer := func(e ast.Expr) bool {
+		id := hRootIdent(e)
+		if id == nil || id.Name == "_" {
+			return false
+		}
+		v, ok := s.info.ObjectOf(id).(*types.Var)
+		if !ok || v.IsField() || v == x {
+			return false
+		}
+		return v.Pos() < loop.Body.Pos() || v.Pos() > loop.Body.End()
+	}
+	produces := func(n ast.Node) bool {
+		switch v := n.(type) {
+		case *ast.AssignStmt:
+			if !hMentions(s.info, v, derived) {
+				return false
+			}
+			for _, l := range v.Lhs {
+				if outer(l) {
+					return true
+				}
+			}
+		case *ast.IncDecStmt:
+			return outer(v.X) && hMentions(s.info, v, derived)
+		case *ast.ExprStmt:
+			call, ok := v.X.(*ast.CallExpr)
+			if !ok || !hMentions(s.info, call, derived) {
+				return false
+			}
+			if sel, ok := ast.Unparen(call.Fun).(*ast.SelectorExpr); ok {
+				if _, isPkg := s.info.ObjectOf(hRootIdentOrNil(sel.X)).(*types.PkgName); !isPkg && outer(sel.X) {
+					return true
+				}
+			}
+			for _, a := range call.Args {
+				if u, ok := ast.Unparen(a).(*ast.UnaryExpr); ok && u.Op == token.AND && outer(u.X) {
+					return true
+				}
+			}
+		}
+		return false
+	}
+
+	// region: blocks of the match branch
+	inLoop := func(b *cfg.Block) (region bool, kind string) {
+		if b.Stmt != nil {
+			if b.Stmt == ast.Stmt(loop) {
+				if b.Kind == cfg.KindRangeLoop {
+					return false, "continue"
+				}
+				if b.Kind == cfg.KindRangeDone {
+					return false, "break"
+				}
+			} else if b.Stmt.Pos() < loop.Pos() || b.Stmt.Pos() >= loop.End() {
+				return false, "jump"
+			}
+		}
+		return true, ""
+	}
+	region := map[*cfg.Block]bool{}
+	var order []*cfg.Block
+	var work []*cfg.Block
+	for _, st := range starts {
+		if in, _ := inLoop(st); in && !region[st] {
+			region[st] = true
+			work = append(work, st)
+		}
+	}
+	for len(work) > 0 {
+		b := work[0]
+		work = work[1:]
+		order = append(order, b)
+		for _, nb := range b.Succs {
+			if in, _ := inLoop(nb); in && !region[nb] {
+				region[nb] = true
+				work = append(work, nb)
+			}
+		}
+	}
+	// the not-found returns: those reachable once the loop is exhausted
+	var notFound []*ast.ReturnStmt
+	for _, b := range g.Blocks {
+		if b.Stmt == ast.Stmt(loop) && b.Kind == cfg.KindRangeDone {
+			seen := map[*cfg.Block]bool{b: true}
+			q := []*cfg.Block{b}
+			for len(q) > 0 {
+				c := q[0]
+				q = q[1:]
+				stop := false
+				for _, n := range c.Nodes {
+					if r, ok := n.(*ast.ReturnStmt); ok {
+						notFound = append(notFound, r)
+						stop = true
+					}
+				}
+				if stop {
+					continue
+				}
+				for _, nb := range c.Succs {
+					if !seen[nb] && !region[nb] {
+						seen[nb] = true
+						q = append(q, nb)
+					}
+				}
+			}
+		}
+	}
+	isGiveUpReturn := func(r *ast.ReturnStmt) bool {
+		if hMentions(s.info, r, derived) {
+			return false
+		}
+		// constants that differ from a constant not-found return: the found answer
+		allConst := len(r.Results) > 0
+		for _, e := range r.Results {
+			if tv, ok := s.info.Types[e]; !ok || tv.Value == nil {
+				allConst = false
+			}
+		}
+		if allConst {
+			for _, nf := range notFound {
+				if len(nf.Results) != len(r.Results) {
+					continue
+				}
+				differs := false
+				for i, e := range nf.Results {
+					tv, ok := s.info.Types[e]
+					if ok && tv.Value != nil && tv.Value.ExactString() != s.info.Types[r.Results[i]].Value.ExactString() {
+						differs = true
+					}
+				}
+				if differs {
+					return false
+				}
+			}
+		}
+		return true
+	}
+	// exits and clean blocks
+	var exits []hExit
+	clean := map[*cfg.Block]bool{}
+	for _, b := range order {
+		clean[b] = true
+		var ret *ast.ReturnStmt
+		for _, n := range b.Nodes {
+			if produces(n) {
+				clean[b] = false
+			}
+			if r, ok := n.(*ast.ReturnStmt); ok {
+				ret = r
+			}
+		}
+		if ret != nil {
+			k := "found-return"
+			if isGiveUpReturn(ret) {
+				k = "give-up-return"
+			}
+			exits = append(exits, hExit{from: b, ret: ret, kind: k})
+			continue
+		}
+		for _, nb := range b.Succs {
+			if in, kind := inLoop(nb); !in {
+				exits = append(exits, hExit{from: b, to: nb, kind: kind})
+			}
+		}
+	}
+	// case comparisons of switches over lookup data
+	caseTag := map[ast.Expr]ast.Expr{}
+	ast.Inspect(loop.Body, func(n ast.Node) bool {
+		if sw, ok := n.(*ast.SwitchStmt); ok && sw.Tag != nil && hMentions(s.info, sw.Tag, derived) {
+			for _, cs := range sw.Body.List {
+				for _, e := range cs.(*ast.CaseClause).List {
+					caseTag[e] = sw.Tag
+				}
+			}
+		}
+		return true
+	})
+	recordTest := func(b *cfg.Block) (ast.Expr, bool) {
+		if len(b.Succs) != 2 || len(b.Nodes) == 0 {
+			return nil, false
+		}
+		cond, ok := b.Nodes[len(b.Nodes)-1].(ast.Expr)
+		if !ok {
+			return nil, false
+		}
+		if _, isCase := caseTag[cond]; isCase {
+			return cond, true
+		}
+		for _, leaf := range hLeaves(cond) {
+			if !hMentions(s.info, leaf, derived) {
+				continue
+			}
+			if t, f := s.successLeaf(leaf, x); t || f {
+				continue
+			}
+			return cond, true
+		}
+		return nil, false
+	}
+	reachFrom := func(from []*cfg.Block, pass func(*cfg.Block) bool) map[*cfg.Block]bool {
+		seen := map[*cfg.Block]bool{}
+		var q []*cfg.Block
+		for _, b := range from {
+			if region[b] && pass(b) && !seen[b] {
+				seen[b] = true
+				q = append(q, b)
+			}
+		}
+		for len(q) > 0 {
+			b := q[0]
+			q = q[1:]
+			hasRet := false
+			for _, n := range b.Nodes {
+				if _, ok := n.(*ast.ReturnStmt); ok {
+					hasRet = true
+				}
+			}
+			if hasRet {
+				continue
+			}
+			for _, nb := range b.Succs {
+				if region[nb] && pass(nb) && !seen[nb] {
+					seen[nb] = true
+					q = append(q, nb)
+				}
+			}
+		}
+		return seen
+	}
+	any := func(*cfg.Block) bool { return true }
+	isClean := func(b *cfg.Block) bool { return clean[b] }
+	cleanFromStart := reachFrom(starts, isClean)
+
+	for gi, gu := range exits {
+		if gu.kind != "break" && gu.kind != "jump" && gu.kind != "give-up-return" {
+			continue
+		}
+		// blocks that own another exit
+		other := map[*cfg.Block]bool{}
+		for ei, e := range exits {
+			if ei != gi {
+				other[e.from] = true
+			}
+		}
+		// avoid(n): n can reach a block owning another exit
+		avoid := func(n *cfg.Block) bool {
+			r := reachFrom([]*cfg.Block{n}, any)
+			for b := range r {
+				if other[b] {
+					return true
+				}
+			}
+			return false
+		}
+		reaches := func(n *cfg.Block) bool { return reachFrom([]*cfg.Block{n}, any)[gu.from] }
+		for _, t := range order {
+			cond, ok := recordTest(t)
+			if !ok || !cleanFromStart[t] {
+				continue
+			}
+			for ei, sc := range t.Succs {
+				oth := t.Succs[1-ei]
+				// every path from this edge ends in the give-up
+				var must bool
+				if region[sc] {
+					must = reaches(sc) && !avoid(sc)
+				} else {
+					must = gu.to != nil && gu.from == t && gu.to == sc
+				}
+				if !must {
+					continue
+				}
+				// the other edge has somewhere else to go
+				var canAvoid bool
+				if region[oth] {
+					canAvoid = avoid(oth)
+				} else {
+					canAvoid = !(gu.to != nil && gu.from == t && gu.to == oth)
+				}
+				if !canAvoid {
+					continue
+				}
+				// a path to the give-up on which nothing of the record was used
+				if region[sc] && !reachFrom([]*cfg.Block{sc}, isClean)[gu.from] {
+					continue
+				}
+				edge := "true"
+				if ei == 1 {
+					edge = "false"
+				}
+				what := "breaks out of the block loop"
+				switch gu.kind {
+				case "jump":
+					what = "jumps out of the block loop to " + s.c.Position(gu.to.Stmt.Pos())
+				case "give-up-return":
+					what = "returns the not-found value (`" + nodeText(s.c.Fset, gu.ret) + "` at " + s.c.Position(gu.ret.Pos()) + ")"
+				}
+				tag := ""
+				if te, isCase := caseTag[cond]; isCase {
+					tag = " of switch " + types.ExprString(te)
+				}
+				return []string{
+					fmt.Sprintf("after a successful lookup the branch %s when the found record is rejected by the test `%s`%s at %s (%s edge), without having used the record's data", what, types.ExprString(cond), tag, s.c.Position(cond.Pos()), edge),
+					fmt.Sprintf("record test %s `%s`%s, %s edge", s.c.Position(cond.Pos()), types.ExprString(cond), tag, edge),
+					"no statement on the way writes a result variable from the lookup data",
+					"give-up: " + what,
+				}
+			}
+		}
+	}
+	return nil
 }
